@@ -1,3 +1,134 @@
-import QcoVerif.Model.Builder
+import QcoVerif.Properties.C02
+/-
+  C11 — flattening keeps the operations.
+
+  About `World.flatten` (what the driver executes): the flattened graph lists exactly the operations of the
+  (mutating) listing — same multiset, each once (`flatten_listing_perm`) —, every one of them is a leaf operation
+  and adding them changes nothing but relation links, so no sub-circuit remains (`flatten_no_composite`), and kind,
+  qubits, duration strategy, tag and fields of every object are untouched (`flatten_shape`).
+  NOT proved: idempotence of `flatten` on the listing ORDER and the library clause (listing order, schedule,
+  indices and export unchanged) — the latter is false of model and code for d ≥ 3, cycles ≥ 3 (known finding R5),
+  and after an unrolling flatten can even create a cyclic relation (known finding R14); these clauses are evaluated
+  on the implementation and compared with the model on every generated program.
+-/
 namespace Qco.C11
+
+open Qco
+
+/-- `add_to_graph` only allocates links and rewrites the link of the added operation. -/
+theorem addToGraph_shape (w : World) (g : List Entry) (o : Nat) {w0 : World} (h : Shape w w0) :
+    Shape (w.addToGraph g o).1 w0 := by
+  have newLink_shape : ∀ (w : World) (L : Link), Shape w w0 → Shape (w.newLink L).1 w0 := by
+    intro w L h; exact ⟨h.1, fun j => h.2 j⟩
+  have warn_shape : ∀ (w : World) (n : Nat), Shape w w0 → Shape { w with warnings := n } w0 := by
+    intro w n h; exact ⟨h.1, fun j => h.2 j⟩
+  unfold World.addToGraph
+  simp only
+  split
+  · split
+    · exact h
+    · split
+      · exact (newLink_shape _ _ h).setLink _ _
+      · exact (newLink_shape _ _ h).setLink _ _
+  · split
+    · split
+      · exact h
+      · split
+        · exact (newLink_shape _ _ (warn_shape _ _ h)).setLink _ _
+        · exact (newLink_shape _ _ (warn_shape _ _ h)).setLink _ _
+    · split
+      · exact (newLink_shape _ _ (warn_shape _ _ h)).setLink _ _
+      · exact (newLink_shape _ _ (warn_shape _ _ h)).setLink _ _
+
+/-- rebuilding a graph from a list of operations lists exactly those operations (plus what was there). -/
+theorem rebuild_perm (w0 : World) : ∀ (ops : List Nat) (w : World) (g : List Entry), Shape w w0 →
+    let r := ops.foldl (fun (acc : World × List Entry) o => acc.1.addToGraph acc.2 o) (w, g)
+    (listing r.2).Perm (ops.reverse ++ listing g) ∧ Shape r.1 w0 := by
+  intro ops
+  induction ops with
+  | nil => intro w g h; exact ⟨by simp, h⟩
+  | cons o os ih =>
+    intro w g h
+    simp only [List.foldl_cons, List.reverse_cons, List.append_assoc, List.singleton_append]
+    have h1 := C02.add_listing w g o
+    have hs := addToGraph_shape w g o h
+    obtain ⟨h2, h3⟩ := ih (w.addToGraph g o).1 (w.addToGraph g o).2 hs
+    exact ⟨h2.trans (List.Perm.append_left _ h1), h3⟩
+
+theorem setGraph_graph (w : World) (c : Nat) (g : List Entry) (h : c < w.ops.size) :
+    ((w.setGraph c g).op c).graph = g := by
+  simp [World.setGraph, World.setOp, World.op, Array.getD, h]
+
+theorem setGraph_size (w : World) (c : Nat) (g : List Entry) : (w.setGraph c g).ops.size = w.ops.size := by
+  simp [World.setGraph, World.setOp]
+
+/-- **the flattened circuit lists exactly the operations of the listing, each once**
+    (`c` is a heap object: `c < ops.size`). -/
+theorem flatten_listing_perm (w : World) (c : Nat) (hc : c < (w.flatten c).ops.size) :
+    (listing ((w.flatten c).op c).graph).Perm (w.operations c).2 := by
+  have hr := (rebuild_perm w (w.operations c).2 (w.operations c).1 [] (operations_shape w c)).1
+  simp only [listing, sortedEntries, List.mergeSort_nil, List.map_nil, List.append_nil] at hr
+  unfold World.flatten at hc ⊢
+  simp only at hc ⊢
+  generalize ((w.operations c).2.foldl (fun (acc : World × List Entry) o => acc.1.addToGraph acc.2 o)
+      ((w.operations c).1, [])) = r at hr hc ⊢
+  rw [setGraph_size] at hc
+  rw [setGraph_graph _ _ _ hc]
+  exact hr.trans (List.reverse_perm _)
+
+/-- every entry of the operation listing is a leaf operation. -/
+theorem leafListing_leaves (w : World) : ∀ (f c o : Nat), o ∈ w.leafListing f c → (w.op o).isComp = false := by
+  intro f
+  induction f with
+  | zero => intro c o h; simp [World.leafListing] at h
+  | succ f ih =>
+    intro c o h
+    unfold World.leafListing at h
+    simp only [List.mem_flatMap] at h
+    obtain ⟨n, _, hn⟩ := h
+    by_cases hc : (w.op n).isComp = true
+    · rw [if_pos hc] at hn; exact ih n o hn
+    · rw [if_neg hc] at hn
+      simp only [List.mem_singleton] at hn
+      subst hn; simpa using hc
+
+/-- **no sub-circuit remains**: every node of the flattened graph is a leaf operation (kind unchanged). -/
+theorem flatten_no_composite (w : World) (c : Nat) (hc : c < (w.flatten c).ops.size) :
+    ∀ n ∈ listing ((w.flatten c).op c).graph, (w.op n).isComp = false := by
+  intro n hn
+  have := (flatten_listing_perm w c hc).mem_iff.mp hn
+  rw [operations_eq_leafListing] at this
+  exact leafListing_leaves w _ c n this
+
+/-- flattening changes nothing but relation links and the graph of the flattened circuit itself: kind, qubits,
+    channel, duration strategy, tag, fields, counts of every object are untouched. -/
+theorem flatten_shape (w : World) (c : Nat) :
+    ∀ j, ((w.flatten c).op j).cls = (w.op j).cls ∧ ((w.flatten c).op j).qs = (w.op j).qs ∧
+      ((w.flatten c).op j).dur = (w.op j).dur ∧ ((w.flatten c).op j).tag = (w.op j).tag ∧
+      ((w.flatten c).op j).ints = (w.op j).ints ∧ ((w.flatten c).op j).rep = (w.op j).rep := by
+  intro j
+  unfold World.flatten
+  simp only
+  have hr := (rebuild_perm w (w.operations c).2 (w.operations c).1 [] (operations_shape w c)).2
+  generalize ((w.operations c).2.foldl (fun (acc : World × List Entry) o => acc.1.addToGraph acc.2 o)
+      ((w.operations c).1, [])) = r at hr
+  have key : ∀ k, ((r.1.setGraph c r.2).op k).noLink = { (r.1.op k).noLink with graph := ((r.1.setGraph c r.2).op k).graph } := by
+    intro k
+    simp only [World.setGraph, World.setOp, World.op, Op.noLink]
+    by_cases hk : k = c
+    · subst hk
+      by_cases hb : k < r.1.ops.size
+      · simp [Array.getD, hb]
+      · simp [Array.getD, hb]
+    · simp [Array.getD, Array.getElem_setIfInBounds_ne, hk, Ne.symm hk]
+      split <;> simp_all [Array.getElem_setIfInBounds_ne, Ne.symm hk]
+  have hj := hr.2 j
+  have kj := key j
+  have c1 := congrArg Op.cls kj; have c2 := congrArg Op.qs kj; have c3 := congrArg Op.dur kj
+  have c4 := congrArg Op.tag kj; have c5 := congrArg Op.ints kj; have c6 := congrArg Op.rep kj
+  have d1 := congrArg Op.cls hj; have d2 := congrArg Op.qs hj; have d3 := congrArg Op.dur hj
+  have d4 := congrArg Op.tag hj; have d5 := congrArg Op.ints hj; have d6 := congrArg Op.rep hj
+  simp only [Op.noLink] at c1 c2 c3 c4 c5 c6 d1 d2 d3 d4 d5 d6
+  exact ⟨c1.trans d1, c2.trans d2, c3.trans d3, c4.trans d4, c5.trans d5, c6.trans d6⟩
+
 end Qco.C11
